@@ -452,7 +452,9 @@ func CalculateBestCacheSize(argb []uint32, quality int, refs *BackwardRefs, cach
 		ls := histogramNumCodes(i)
 		histoSlab[i].Literal = litSlab[litOff : litOff+ls : litOff+ls]
 		histoSlab[i].paletteCodeBits = i
-		histoSlab[i].resetStats()
+		// The slab may come from a pooled encoder: clear the Red/Blue/Alpha/Distance
+		// counts of the previous encode too (resetStats only resets the cost stats).
+		histoSlab[i].Clear()
 		histos[i] = &histoSlab[i]
 		litOff += ls
 	}
